@@ -26,8 +26,20 @@ theorem effective_spec (sp : Spec) (h : Inv2 sp) : effective sp.st = sp.st.work.
   | none =>
     rw [he] at hl
     simp only at hl ⊢
-    rw [hl]
-    exact map_initialAuthor_claimsFrom sp.st.work (target sp) h.nodup
+    rcases hl with ⟨hi, hnone⟩ | ⟨_, hi, hnd, _, hrest⟩
+    · rw [hi, checkpointAttr_no_claims]
+      apply List.map_congr_left
+      intro y hy
+      exact (hnone y hy).symm
+    · rw [hi, map_initialAuthor_claimsFrom sp.st.initSnap (target sp) hnd]
+      unfold checkpointAttr
+      apply List.map_congr_left
+      intro y hy
+      simp only
+      rw [lookup_map]
+      by_cases hs : y ∈ sp.st.initSnap
+      · simp [hs]
+      · simp [hs, hrest y hy hs]
 
 theorem wlAuthor_spec (sp : Spec) (h : Inv2 sp) (y : Nat) :
     wlAuthor sp.st y = if y ∈ sp.st.work then target sp y else none := by
